@@ -137,7 +137,7 @@ func C10(c *run.Ctx) {
 	regs := c10Regs()
 	trs := c10Transports()
 	rels := []string{"current", "rotated", "wrong", "empty", "others"}
-	endpoints := []string{"token:authorization_code", "token:refresh_token", "token:client_credentials", "token:password", "token:device_code", "token:jwt-bearer", "token:jwt-bearer-skip", "revoke", "par", "device"}
+	endpoints := []string{"token:authorization_code", "token:authorization_code-used", "token:refresh_token", "token:client_credentials", "token:password", "token:device_code", "token:jwt-bearer", "token:jwt-bearer-skip", "revoke", "par", "device"}
 	c.Exhaustive = true
 	idx := 0
 	for ri, reg := range regs {
@@ -222,6 +222,16 @@ func C10(c *run.Ctx) {
 							switch ep {
 							case "token:authorization_code":
 								live = mint("code")
+								form = url.Values{"grant_type": {"authorization_code"}, "code": {live}, "redirect_uri": {"https://t.example/cb"}}
+							case "token:authorization_code-used":
+								// a replay of an already redeemed code by a caller that fails authentication must not touch the family
+								if !canAuth {
+									continue
+								}
+								live = mint("code")
+								if w.Token(url.Values{"grant_type": {"authorization_code"}, "code": {live}, "redirect_uri": {"https://t.example/cb"}}, valid()).Err != nil {
+									continue
+								}
 								form = url.Values{"grant_type": {"authorization_code"}, "code": {live}, "redirect_uri": {"https://t.example/cb"}}
 							case "token:refresh_token":
 								if live = mint("refresh"); live == "" {
